@@ -34,5 +34,7 @@ def handleFitRaise (st : St) (op : String) (j : Json) : Option (D (St × Json)) 
     let hyp := PM.FromDom.detB S && S.fillersOKB && S.wrapOKB && S.labelsOKB && textStableC S && S.closableB &&
       S.checkNode d && S.nodeAttrsOK d && !S.isTextblockO (S.tyOf d) && decide (f ≤ t) && decide (t ≤ fsize d.kids)
     return (st, ok (Json.mkObj [("guards", guards), ("hyp", Json.bool hyp),
-      ("wfWhile", Json.bool (unplacedWfWhile S d f t sl)), ("model", Json.str outcome)]))
+      ("wfWhile", Json.bool (unplacedWfWhile S d f t sl)), ("model", Json.str outcome),
+      -- `openPrefixOk_of_cut`: the non-leaf nodes of the slice have suffix-closed content
+      ("homog", Json.bool (S.homogKids sl.content)), ("homogSchema", Json.bool S.homogSchemaB)]))
   | _ => none
